@@ -11,6 +11,7 @@ import (
 	"context"
 	"encoding/xml"
 	"errors"
+	"fmt"
 	"io"
 
 	"mellium.im/xmlstream"
@@ -74,17 +75,29 @@ func (c Command) ExecuteIQ(ctx context.Context, iq stanza.IQ, payload xml.TokenR
 	if err != nil {
 		return resp, nil, err
 	}
-	start := t.(xml.StartElement)
+	start, ok := t.(xml.StartElement)
+	if !ok {
+		return resp, nil, fmt.Errorf("commands: expected IQ start token, got %T", t)
+	}
 	respIQ, err := stanza.UnmarshalIQError(respPayload, start)
 	if err != nil {
 		return resp, nil, err
 	}
 
-	t, err = respPayload.Token()
-	if err != nil {
-		return resp, nil, err
+	// Find the payload, skipping anything that precedes it (eg. whitespace or
+	// other character data).
+	for {
+		t, err = respPayload.Token()
+		if err != nil {
+			return resp, nil, err
+		}
+		if start, ok = t.(xml.StartElement); ok {
+			break
+		}
+		if _, ok = t.(xml.EndElement); ok {
+			return resp, nil, errors.New("commands: unexpected response to command")
+		}
 	}
-	start = t.(xml.StartElement)
 	resp, err = respFromStart(start, respIQ)
 	if err != nil {
 		return resp, nil, err
